@@ -1418,15 +1418,23 @@ def run(tier, seed):
                       "are not settled by the documentation and are excluded (driver answers unsupported)",
                       "grass's answers are read through inspect(); the printer is re-implemented in tools/props/c14.py (show) and "
                       "the model's value is compared as printed text plus the four structural pins"]
+    import time
+    t0 = time.time()
     ck.do_prove(cores=("blt",))
+    t1 = time.time()
     if not ck.do_build_runner():
         ck.unproved("correspondence-broken", {"why": "runner does not build against /repo", "error": getattr(ck, "build_error", "")})
         return ck.finish()
     pool = RunnerPool()
     n_calls, n_laws = SIZES[tier]
+    t2 = time.time()
     cases = gen_cases(ck, n_calls)
     failing = evaluate(ck, pool, cases)
+    t3 = time.time()
     failing += run_laws(ck, pool, n_laws)
+    t4 = time.time()
+    ck.notes.append(f"phase wall times: proof step (lake build incl. waiting for the shared build lock, token scan, axiom audit) "
+                    f"{t1 - t0:.0f}s, runner build {t2 - t1:.0f}s, correspondence {t3 - t2:.0f}s, laws {t4 - t3:.0f}s")
     unknown = [f for f in failing if not f["tags"]]
     if (not ck.proof["ok"] or ck.cov["model_disagreements"]) and not unknown and tier == "quick":
         log("[C14] proof or correspondence broken: enlarging the search")
